@@ -150,3 +150,17 @@ PROP_INFO["X_ZEBRA"] = dict(X); SUITES["X_ZEBRA"] = {"quick": [{"family": "zebra
 # C02: a neighbour deleted while its routes are retained as stale (gr family) must leave nothing behind
 SUITES["C02"]["quick"] += [{"family": "gr", "mode": "", "share": 1}]
 SUITES["C02"]["thorough"] += [{"family": "gr", "mode": "", "share": 1}]
+
+# ---- bfd family: BFD server/clients of the daemon over simulated datagram sockets (C19 BFD clause, C20, C07 administrative-reset clause)
+ALL_FAMILIES += [("bfd", "")]
+_B = {"family": "bfd", "mode": "", "share": 1}
+SUITES["C19"]["quick"] += [dict(_B)]
+SUITES["C19"]["thorough"] += [dict(_B)]
+SUITES["C20"]["quick"] += [dict(_B)]
+SUITES["C20"]["thorough"] += [dict(_B), dict(_B, race=True)]
+SUITES["C07"]["quick"] += [dict(_B)]
+SUITES["C07"]["thorough"] += [dict(_B)]
+PROP_INFO["X_BFD"] = dict(X); SUITES["X_BFD"] = {"quick": [dict(_B)], "thorough": [dict(_B), dict(_B, race=True)]}
+PROP_INFO["C19"]["real"] = PROP_INFO["C19"]["real"] + ["pkg/server bfd_server.go / bfd_peer.go, pkg/packet/bfd", "pkg/server zclient.go, pkg/zebra"]
+PROP_INFO["C19"]["stub"] = PROP_INFO["C19"]["stub"] + ["remote BFD speakers (independent RFC 5880 codec and state machine) over simulated datagram sockets (loss, duplication, delay/reordering)", "zebra daemon (independent ZAPI framing)"]
+PROP_INFO["C19"]["assumptions"] = [a.replace("BFD, Route Mirroring", "Route Mirroring") for a in PROP_INFO["C19"]["assumptions"]]
